@@ -1289,6 +1289,12 @@ def oracle(ctx: Ctx, budget: str):
     dsel = dsel if large else dsel[::3] + [a for a in dsel if a[2] in ("phi<0", "both<0", "phi in (pi,2pi)", "phi>2pi")]
     dsel += [(ctx.rng.uniform(0, 6), ctx.rng.uniform(-3 * PI + 0.2, -2 * PI - 0.2), "phi in (-3pi,-2pi)"),
              (ctx.rng.uniform(-6, 0), ctx.rng.uniform(-PI + 0.2, -0.2), "phi in (-pi,0)")]
+    # close to, but not on, the polar axis: the documented zero convention applies only where |tan(phi)| < 1e-10 (the code's
+    # threshold); from 1.01e-10 on the routine must return the true derivative (m = +-1 rows are O(1) there)
+    for _ in range(3 if not large else 12):
+        e = 10 ** ctx.rng.uniform(-9.99, -3.0)
+        dsel.append((ctx.rng.uniform(0, 6), ctx.rng.choice([e, -e, PI - e, PI + e, 2 * PI + e]), "near-pole"))
+    dsel += [(ctx.rng.uniform(0, 6), 1.05e-10, "near-pole"), (ctx.rng.uniform(0, 6), PI - 3e-9, "near-pole")]
     for t, p, tag in dsel:
         d = np.asarray(ut.generate_derivative_real_spherical_harmonics(Ld, np.array([t]), np.array([p])), dtype=float)
         for l, m in py_lm_order(Ld):
@@ -1425,7 +1431,7 @@ def _oracle_point(ctx: Ctx, ut, mp, routine, L, t, p, r=None, lms=None):
                           "utils.solid_harmonics:definition", 1e-12 * (L + 1) * max(1.0, abs(r) ** l))]
             else:
                 comps = [("dtheta", -m * mp_ylm(mp, l, -m, t, p), got[0, row, 0], f"[0, {row}, 0]", f"utils.{_FN[routine]}:dtheta:{cls}", None)]
-                if abs(math.sin(p)) > 1e-3:  # at the poles d/dphi is 0 by documented convention
+                if abs(math.tan(p)) > 1.01e-10:  # at the poles (|tan phi| < 1e-10, the code's threshold) d/dphi is 0 by documented convention
                     comps.append(("dphi", mp.diff(lambda x: mp_ylm(mp, l, m, t, mp.mpf(p) + x), 0, h=mp.mpf(10) ** -(dps * 3 // 10)),
                                   got[1, row, 0], f"[1, {row}, 0]", f"utils.{_FN[routine]}:dphi:{cls}", None))
             for what, want, g, idx, key, tol in comps:
